@@ -225,7 +225,18 @@ func genOptReqs(c *optCase) []optReq {
 			}
 			typ := []byte{1, 3, 5, 11}[rng.Intn(4)]
 			opts := []pkt.Opt6{pkt.O6(pkt.OptClientID6, pkt.DUIDLL([]byte{2, 0, 0, 0, 1, byte(i)}))}
-			if hasORO {
+			split := ""
+			if hasORO && len(oro) >= 2 && rng.Intn(4) == 0 {
+				// the request list spread over two Option Request options (the codec hands handlers the
+				// union; a client whose list outgrew what its firmware puts into one option)
+				k := 1 + rng.Intn(len(oro)-1)
+				opts = append(opts, pkt.ORO(oro[:k]...))
+				if rng.Intn(2) == 0 {
+					opts = append(opts, pkt.O6(pkt.OptElapsed, []byte{0, 0}))
+				}
+				opts = append(opts, pkt.ORO(oro[k:]...))
+				split = fmt.Sprintf(" in two options (%d+%d codes)", k, len(oro)-k)
+			} else if hasORO {
 				opts = append(opts, pkt.ORO(oro...))
 			}
 			if rng.Intn(2) == 0 {
@@ -236,7 +247,7 @@ func genOptReqs(c *optCase) []optReq {
 			if !hasORO {
 				ri.ORO = nil
 			}
-			out = append(out, optReq{hex: hex.EncodeToString(data), ri6: ri, desc: fmt.Sprintf("type=%d ORO=%v(present=%v)", typ, oro, hasORO)})
+			out = append(out, optReq{hex: hex.EncodeToString(data), ri6: ri, desc: fmt.Sprintf("type=%d ORO=%v(present=%v)%s", typ, oro, hasORO, split)})
 			continue
 		}
 		ri := model.Req4Info{Discover: rng.Intn(2) == 0, Has116: rng.Intn(2) == 0, YiAssigned: c.YiAssigned, Has51Before: c.Has51Before}
